@@ -5,6 +5,11 @@ id=$1; ab=$2
 src=${SEEDROOT:-/tmp/seed-out}/$id/$ab
 [ -f $src/patch.diff ] || { echo "no patch for $id/$ab"; exit 2; }
 export GOFLAGS=-mod=mod GOPROXY=off GOSUMDB=off GOTOOLCHAIN=local GOWORK=off
+if [ -n "${FAST:-}" ] && grep -q '^confirmed=1' $src/confirm.txt 2>/dev/null; then
+  # already confirmed in an earlier run: only re-run the checks
+  grep -v '^detected_by=' $src/confirm.txt > $src/confirm.tmp; mv $src/confirm.tmp $src/confirm.txt
+  res=$src/confirm.txt; ok=1
+else
 wt=/tmp/sc-$id-$ab
 git -C /repo worktree remove --force $wt >/dev/null 2>&1
 git -C /repo worktree add -q --detach $wt HEAD || exit 2
@@ -29,6 +34,7 @@ fi
 rm -f /tmp/sc-test.$$
 git -C /repo worktree remove --force $wt
 echo "confirmed=$ok" >> $res
+fi
 # run all checks against /repo with the patch applied
 if [ $ok = 1 ]; then
   [ -z "$(git -C /repo status --short)" ] || { echo "/repo not clean"; exit 2; }
@@ -36,7 +42,7 @@ if [ $ok = 1 ]; then
   det=""
   : > $src/checks.txt
   for i in $(seq -w 1 18); do
-    out=$(/verif/bin/cvsscheck -prop C$i -repo /repo -verif /verif -no-evidence 2>&1); rc=$?
+    out=$(${BIN:-/verif/bin/cvsscheck} -prop C$i -repo /repo -verif /verif -no-evidence 2>&1); rc=$?
     if [ $rc -ne 0 ]; then det="$det C$i"; echo "== C$i (exit $rc)" >> $src/checks.txt; echo "$out" | grep -v '^VIOLATION' | grep -E '\[R|\[floor|\[control|\[load|\[analyser' | cut -c1-400 | head -8 >> $src/checks.txt; fi
   done
   git -C /repo checkout -- .
